@@ -97,6 +97,16 @@ class StrictLeg(object):
         out = str(f)
         if out != line:
             return Failure("printed line differs:\n in: %r\nout: %r" % (line, out), sig={"kind": "bytes"})
+        # printing (and comparing / hashing, which print) is repeatable and leaves the parsed values alone
+        hash(f)
+        again = str(f)
+        if again != line:
+            return Failure("second print of the same Feature differs:\n 1st: %r\n 2nd: %r" % (out, again), sig={"kind": "bytes-second-print"})
+        bad = _compare_parse(f, rec, line)
+        if bad:
+            bad.msg = "after printing: " + bad.msg
+            bad.sig["kind"] = "attributes-after-print"
+            return bad
         # a trailing line break is not part of the line
         for nl in ("\n", "\r\n"):
             g = feature_from_line(line + nl, keep_order=True)
